@@ -186,6 +186,9 @@ class Ctl(Harness):
             add("fixed1", 3, 1, cb="partial-pos")
             add("linub", 3, 1, cb="partial-kw")
             add("nlub", 4, 1, npt=2, force="soc", con_const=1.0)
+            add("unc1", 6, 3, fun_seq=[5.0, 4.0, 6.0, 3.5, 3.75, 3.25], npt=2)
+            add("box1", 6, 3, fun_seq=[5.0, 4.0, 6.0, 3.5, 3.75, 3.25], npt=2, cb="pos")
+            add("nlub", 6, 3, fun_seq=[5.0, 4.0, 6.0, 3.5, 3.75, 3.25], npt=2, con_const=-1.0)
             add("nanbox", 3, 1, npt=3)
             add("nanboxarr", 3, 1, npt=3, cb="pos")
             add("unc1", 3, 1, repeat=True)
@@ -204,6 +207,13 @@ class Ctl(Harness):
                 add(pb, 4, 2, faults=1, ill=1, menu=3, npt=PROBLEMS[pb]["n"] + 1)
                 add(pb, 3, 1, cb="obj-kw", scribble=True, npt=PROBLEMS[pb]["n"] + 1)
                 add(pb, 3, 1, cb="partial-pos", scribble=True, npt=PROBLEMS[pb]["n"] + 1)
+            seq = [5.0, 4.0, 6.0, 3.5, 3.75, 3.25, 3.0, 3.125]
+            for pb in ("unc1", "box1", "box2s", "fixed1", "linub", "lineq", "nanbox"):
+                add(pb, 8, 4, fun_seq=seq, npt=PROBLEMS[pb]["n"] + 1, cb="pos")
+            for pb in ("nlub", "nleq", "boxnls", "fixnls", "linnl", "dict"):
+                add(pb, 7, 3, fun_seq=seq, npt=2, con_const=-1.0)
+                add(pb, 6, 3, fun_seq=seq, npt=2, con_const=1.0, cb="kw")
+                add(pb, 5, 2, npt=2, con_const=0.5, force="soc")
             add("unc1", 4, 2, repeat=True)
             add("box1", 3, 1, cb="pos", repeat=True)
             add("nlub", 3, 1, npt=2, repeat=True)
@@ -221,6 +231,8 @@ class Ctl(Harness):
                 return prop == "C11"
             if d.get("force"):
                 return prop in ("C12", "C01", "C18", "C05", "C09")
+            if d.get("fun_seq"):
+                return prop in ("C07", "C18", "C05", "C12", "C08", "C02", "C03", "C20", "C09", "C06")
             if prop in ("C11", "C18", "C12"):
                 return d["pb"] in ("unc1", "box1", "lineq", "box2s", "linub", "fixed1", "nanbox", "nanboxarr") or \
                     (d["pb"] in ("nlub", "feas") and d["kinds"] == "fin") or (d["pb"] == "boxnls" and prop != "C11")
@@ -411,7 +423,14 @@ class Ctl(Harness):
                                     options=dict(maxfev=2, nb_points=3))
                 finally:
                     ctx.tape = saved_tape
-            v = val("f")
+            if shape.get("fun_seq"):
+                seq = shape["fun_seq"]
+                k = len([r for r in log if r["t"] == "fun"])
+                v = float(seq[k % len(seq)])
+                if ctx.sym:
+                    v = lift(v)
+            else:
+                v = val("f")
             log.append(dict(t="fun", x=pt(x), v=v, depth=cur["depth"]))
             return v
 
@@ -966,6 +985,8 @@ class Ctl(Harness):
         g = ["status_3", "status_5", "status_6"]
         if prop in ("C07", "C08"):
             g += ["status_-2"]
+        if prop in ("C07", "C18"):
+            g += ["status_0"]
         if prop in ("C09", "C07"):
             g += ["callback_stopped", "status_1", "status_4"]
         if prop == "C20":
